@@ -567,8 +567,8 @@ def _check_udp_outcome(world, case, q, q_raw, mats, want, out, elapsed, res):
         r = out[1]
         if getattr(r, "errors", None):
             raise Violation("C18:returned-with-parse-errors", f"{tag}: returned a message carrying recorded parse errors {r.errors[:1]}; arrivals {seq}")
-        # which delivered datagram is it?
-        idx = None
+        # which delivered datagram is it?  (two deliveries can carry identical bytes)
+        matches = []
         for i, (t, payload, src, k) in enumerate(mats):
             if isinstance(payload, BaseException):
                 continue
@@ -577,15 +577,18 @@ def _check_udp_outcome(world, case, q, q_raw, mats, want, out, elapsed, res):
             except Exception:  # noqa: BLE001
                 continue
             if cand == r and cand.id == r.id and cand.flags == r.flags and getattr(r, "wire", None) in (None, payload):
-                idx = i
-                break
-        if idx is None:
+                matches.append(i)
+        if not matches:
             raise Violation("C18:returned-not-delivered", f"{tag}: the returned message is not the strict parse of any delivered datagram; arrivals {seq}")
-        t, payload, src, k = mats[idx]
-        if not is_response_raw(q_raw, raw_parse(payload)) or not _source_ok(case, src):
+        good = [i for i in matches if is_response_raw(q_raw, raw_parse(mats[i][1])) and _source_ok(case, mats[i][2]) and mats[i][0] < T]
+        if not good:
+            idx = matches[0]
+            t, payload, src, k = mats[idx]
+            if t >= T and is_response_raw(q_raw, raw_parse(payload)) and _source_ok(case, src):
+                raise Violation("C18:returned-after-deadline", f"{tag}: returned datagram #{idx} that arrived at {t} >= timeout {T}")
             raise Violation("C18:returned-not-genuine", f"{tag}: returned datagram #{idx} ({k}) which is not a genuine response from the queried address; arrivals {seq}")
-        if t >= T:
-            raise Violation("C18:returned-after-deadline", f"{tag}: returned datagram #{idx} that arrived at {t} >= timeout {T}")
+        idx = want[1] if (want[0] == "ok" and want[1] in good) else good[0]
+        k = mats[idx][3]
         if elapsed > T + 1e-6:
             raise Violation("C18:returned-after-deadline", f"{tag}: returned after {elapsed}s with timeout {T}")
         if want != ("ok", idx):
